@@ -639,28 +639,10 @@ func shape(in Input, o Observed) string {
 	return sb.String()
 }
 
-// ignoredUnentered finds the child item whose Transaction call returned before calling the
-// block function (its SAVEPOINT failed) while the enclosing function ignores the error.
-func ignoredUnentered(b *Blk, log []Obs) *Item {
-	for i := range log {
-		if i >= len(b.Items) || b.Items[i].K != "child" || log[i].K != "child" {
-			continue
-		}
-		it := &b.Items[i]
-		if !log[i].Entered && log[i].Ret.K == "err" && !it.Chk {
-			return it
-		}
-		if x := ignoredUnentered(it.B, log[i].Body); x != nil {
-			return x
-		}
-	}
-	return nil
-}
-
-const (
-	sigSticky = "nested-savepoint-error-sticks-to-enclosing-handle"
-	sigStock  = "sqlite-dialector-drops-savepoint-error"
-)
+// The former finding "nested-savepoint-error-sticks-to-enclosing-handle" (a SAVEPOINT fault of a
+// nested block whose error the enclosing function ignores) was fixed in /repo by 1c49b86: such
+// inputs are ordinary members of the generated streams now; corpus/C04 keeps the original input.
+const sigStock = "sqlite-dialector-drops-savepoint-error"
 
 // sig: known-finding signature. It depends only on the input: the kind of the driver operation
 // the fault index lands on and the position of that operation in the program are functions of
@@ -672,9 +654,6 @@ func sig(in Input, o Observed) string {
 	fk := o.Ops[in.Fault].K
 	if !in.Cfg.Report && (fk == "save" || fk == "rbto") {
 		return sigStock
-	}
-	if in.Cfg.Report && fk == "save" && ignoredUnentered(&in.Body, o.Log) != nil {
-		return sigSticky
 	}
 	return ""
 }
@@ -813,18 +792,14 @@ func main() {
 		add("corpus", readCase(f))
 	}
 
-	// faulted runs one program with the k-th driver operation failing. Inputs that fall on a
-	// known finding are kept out of the generated streams (the corpus replays them): the
-	// enclosing function is made to return the child's error, resp. the fault is moved.
+	// faulted runs one program with the k-th driver operation failing. Inputs that fall on the
+	// known finding of the stock SQLite dialector are kept out of the generated streams (the
+	// corpus replays one).
 	faulted := func(kind string, in Input, free Observed, k int, phase string) {
 		in.Fault, in.Phase = k, phase
 		in.Body = copyBlk(&in.Body)
 		if !in.Cfg.Report && (free.Ops[k].K == "save" || free.Ops[k].K == "rbto") {
 			return
-		}
-		o := run(in)
-		if sig(in, o) == sigSticky {
-			ignoredUnentered(&in.Body, o.Log).Chk = true
 		}
 		add(kind, in)
 	}
